@@ -254,7 +254,11 @@ def copy_dataset(D):
 
 def phyloxml_all(T):
     def clade(t):
-        s = '<clade><name>%s</name><taxonomy><code>%s</code><scientific_name>%s</scientific_name></taxonomy>' % ((gen.xml_escape(t[0]),) * 3)
+        # (some leaves carry the NCBI taxon id of their species -- the value the orthoXML writes as NCBITaxId, which several
+        # species may share: r13-C13a, species resolved by taxon id on the PhyloXML route only)
+        tid_ = ('<id provider="ncbi">%s</id>' % gen.taxid_of(t[0])) if (not t[1] and sum(map(ord, t[0])) % 3) else ''
+        s = '<clade><name>%s</name><taxonomy>%s<code>%s</code><scientific_name>%s</scientific_name></taxonomy>' % (
+            gen.xml_escape(t[0]), tid_, gen.xml_escape(t[0]), gen.xml_escape(t[0]))
         for k in t[1]:
             s += clade(k)
         return s + '</clade>'
